@@ -181,6 +181,8 @@ pub fn run(ctx: &Ctx, with_reader_side: bool) -> Report {
             Some([33, 65, 129][i - 40])
         } else if t == 1 && i == 34 && !with_reader_side {
             Some(65_537) // record numbers beyond 2^16
+        } else if matches!(t, 3 | 15 | 31) && i == 36 && !with_reader_side {
+            Some(70_000) // two parts of 70 000 vertices: the second part starts beyond vertex 2^16
         } else if t == 1 && (i == 34 || i == 35) && with_reader_side {
             Some([16_385, 32_769][i - 34]) // index entries beyond 2^14 / 2^15
         } else {
@@ -196,6 +198,7 @@ pub fn run(ctx: &Ctx, with_reader_side: bool) -> Report {
                 1 | 11 | 21 => (0..sz).map(|_| gen::shape(t, &mut r, &small)).collect(),
                 3 => vec![gen::shape_exact(t, &mut r, &small, 1, sz), gen::shape_exact(t, &mut r, &small, sz / 2, 2)],
                 8 | 18 | 28 => vec![gen::shape_exact(t, &mut r, &small, 1, sz), gen::shape_exact(t, &mut r, &small, 1, 2)],
+                _ if sz == 70_000 => vec![gen::shape_exact(t, &mut r, &small, 2, sz)],
                 _ => vec![gen::shape_exact(t, &mut r, &small, (sz / 4).max(1), 3), gen::shape_exact(t, &mut r, &small, 2, (sz / 3).max(2)), gen::shape_exact(t, &mut r, &small, 1, sz)],
             }
         } else {
@@ -211,6 +214,10 @@ pub fn run(ctx: &Ctx, with_reader_side: bool) -> Report {
         let mid_finalize: Option<usize> = if i % 5 == 2 && nshapes >= 2 { Some(1 + i % (nshapes - 1)) } else { None };
         let by_path = i % 3 == 1;
         // every 11th file: a finalize BEFORE the first write as well
+        let complete_writer = by_path && i % 13 == 7 && !empty;
+        if complete_writer {
+            rep.count("path_created_pairs_written_by_the_complete_Writer", 1);
+        }
         let pre_finalize = i % 11 == 5;
         if pre_finalize {
             rep.count("files_with_a_finalize_before_the_first_write", 1);
@@ -222,7 +229,15 @@ pub fn run(ctx: &Ctx, with_reader_side: bool) -> Report {
         }
         // every 7th file: the first shapes through write_shape, the rest through the consuming bulk
         // route write_shapes on the same writer (which then drops it)
-        let bulk_tail: Option<usize> = if i % 7 == 4 && nshapes >= 2 && mid_finalize.is_none() { Some(1 + (i / 7) % (nshapes - 1)) } else { None };
+        // (every 14th: the bulk call is the ONLY call; an empty file at i == 33 is produced by a bulk call given nothing)
+        let bulk_tail: Option<usize> = if i % 14 == 11 && nshapes >= 1 && mid_finalize.is_none() {
+            Some(0)
+        } else if i % 7 == 4 && nshapes >= 2 && mid_finalize.is_none() {
+            Some(1 + (i / 7) % (nshapes - 1))
+        } else {
+            None
+        };
+        let empty_bulk = empty && i == 33;
         if bulk_tail.is_some() {
             rep.count("files_ended_through_write_shapes(bulk)_after_write_shape", 1);
         }
@@ -260,7 +275,13 @@ pub fn run(ctx: &Ctx, with_reader_side: bool) -> Report {
                     std::fs::write(&shp_path, vec![0xAAu8; 70_000 + 4 * nshapes])?;
                     std::fs::write(&shx_path, vec![0x55u8; 9_000 + 8 * nshapes])?;
                 }
-                {
+                if complete_writer {
+                    // the complete writer creates the same .shp / .shx (plus a table next to them)
+                    let mut w = Writer::from_path(&shp_path, crate::e_c10::table_builder())?;
+                    for (k, s) in shapes.iter().enumerate() {
+                        with_concrete!(s, x => w.write_shape_and_record(x, &crate::e_c10::row(k)))?;
+                    }
+                } else {
                     let mut w = ShapeWriter::from_path(&shp_path)?;
                     if pre_finalize {
                         w.finalize()?;
@@ -276,6 +297,8 @@ pub fn run(ctx: &Ctx, with_reader_side: bool) -> Report {
                     }
                     if let Some(k) = bulk_tail {
                         crate::e_c09::write_tail(w, &shapes[k..].iter().collect::<Vec<&Shape>>())?;
+                    } else if empty_bulk {
+                        w.write_shapes(Vec::<&Point>::new())?;
                     } else if finalize {
                         w.finalize()?;
                     }
@@ -300,6 +323,8 @@ pub fn run(ctx: &Ctx, with_reader_side: bool) -> Report {
                     }
                     if let Some(k) = bulk_tail {
                         crate::e_c09::write_tail(w, &shapes[k..].iter().collect::<Vec<&Shape>>())?;
+                    } else if empty_bulk {
+                        w.write_shapes(Vec::<&Point>::new())?;
                     } else if finalize {
                         w.finalize()?;
                     }
